@@ -36,7 +36,7 @@ Theorem C17_never_stale_partial : forall (c : case) (pre : list op) (k : nat),
   no_kill pre = true -> (k < length (c_comps c))%nat ->
   let st := final (c_comps c) (map (@length Z) (c_init c)) (start c) pre in
   snd (read_top (c_comps c) st k) = den (c_comps c) (alive st) (store st) k.
-Proof. intros c pre k. exact (never_stale (c_comps c) (map (@length Z) (c_init c)) (c_init c) pre k). Qed.
+Proof. exact never_stale_case. Qed.
 Print Assumptions C17_never_stale_partial.
 
 Theorem C17_never_stale_refuted : exists (c : case) (pre : list op) (k : nat),
@@ -50,6 +50,26 @@ Proof.
 Qed.
 Print Assumptions C17_never_stale_refuted.
 
+(* Owner collection.  FULL STATEMENT: for all histories with Kill ops anywhere and every live computed k
+   whose last evaluation read nothing (directly or through the Computables it read) of a collected owner:
+   the read is not stale.  PROVED: for a collection at the end of any collection-free history and every
+   computed k that is clean at that moment: if its last evaluation read nothing of the collected owner o
+   (`indepf`: no remembered source on o, recursively through the remembered Computables) then k is alive
+   and reading it right after the collection returns its function's value under the NEW set of live
+   owners - so the refuted witness (a Computed that did read the collected owner) is the excluded case.
+   Missing: computeds that are dirty at the moment of collection, and histories that go on after it
+   (the comparison loop and rebuild in a state with dead owners are modelled and run in the
+   correspondence, but the invariant is proved for all-alive states only). *)
+Theorem C17_never_stale_unless_read_dead_owner_partial : forall prog nobs init pre o k,
+  no_kill pre = true -> (k < length prog)%nat ->
+  let st := final prog nobs (install prog (init_state init)) pre in
+  let st' := final prog nobs (install prog (init_state init)) (pre ++ [Kill o]) in
+  cowner prog k <> o -> dirty st k = false -> indepf prog (length prog) st o k = true ->
+  alive st' (cowner prog k) = true /\
+  snd (read_top prog st' k) = den prog (alive st') (store st') k.
+Proof. exact never_stale_after_kill. Qed.
+Print Assumptions C17_never_stale_unless_read_dead_owner_partial.
+
 (* the invariant behind it holds in every reachable state, so the same is true of every read a
    function performs through a chain (ev_ok), not only of top-level reads *)
 Theorem C17_never_stale_every_state_partial : forall prog st k,
@@ -57,27 +77,68 @@ Theorem C17_never_stale_every_state_partial : forall prog st k,
 Proof. exact never_stale_state. Qed.
 Print Assumptions C17_never_stale_every_state_partial.
 
-(* FULL STATEMENT: for all histories (incl. owner collection).  PROVED for histories without owner
-   collection: a read of computed k does not run its function when every (source, value) pair
-   remembered from its last evaluation still has that value (observables: the store; computables:
-   their denotation), e.g. after assignments that restored the values. *)
-Theorem C17_no_spurious_partial : forall prog nobs init ops k,
+(* Reachable-state invariant (histories without owner collection): for every computed k that has run,
+   Computed.parents holds EXACTLY the reads of its last evaluation - the reads its function performs
+   on the store sto0 it last ran on, with the values read - its cached value is the result of that run,
+   and it is subscribed to every one of them; while it is clean these are also exactly the reads and
+   the result on the CURRENT store. *)
+Theorem C17_parents_are_last_reads : forall prog nobs init ops k,
   no_kill ops = true -> (k < length prog)%nat ->
   let st := final prog nobs (install prog (init_state init)) ops in
   first st k = false ->
+  (exists sto0, (forall p, In p (flat (parents st k)) <-> In p (reads_of prog (alive st) sto0 k)) /\
+                value st k = den prog (alive st) sto0 k) /\
+  (forall s x, In (s, x) (flat (parents st k)) -> In k (subs st s)) /\
+  (dirty st k = false ->
+     (forall p, In p (flat (parents st k)) <-> In p (reads_of prog (alive st) (store st) k)) /\
+     value st k = den prog (alive st) (store st) k).
+Proof. exact parents_are_last_reads. Qed.
+Print Assumptions C17_parents_are_last_reads.
+
+(* Whole histories (FULL STATEMENT: incl. owner collection; PROVED without): after any history, reading
+   ANY computed j - k itself or something that reads k through a chain of any length - runs the
+   function of k at most once, and only if it never ran or one of the values it read last time differs
+   now; the parents it is left with are the reads of that run. *)
+Theorem C17_recompute_justified_partial : forall prog nobs init ops j k,
+  no_kill ops = true -> (j < length prog)%nat ->
+  let st := final prog nobs (install prog (init_state init)) ops in
+  let st' := fst (read_top prog st j) in
+  count st' k = count st k \/
+  (count st' k = count st k + 1 /\
+   (first st k = true \/ exists s x, In (s, x) (flat (parents st k)) /\ dsrc prog (alive st) (store st) s <> x) /\
+   (forall p, In p (flat (parents st' k)) <-> In p (reads_of prog (alive st) (store st) k))).
+Proof. exact runs_only_when_changed. Qed.
+Print Assumptions C17_recompute_justified_partial.
+
+(* ... hence (derived from the two theorems above): while none of the values k read last time has changed -
+   e.g. after assignments that restored them - no read of any computed re-runs k's function *)
+Theorem C17_no_spurious_partial : forall prog nobs init ops j k,
+  no_kill ops = true -> (j < length prog)%nat ->
+  let st := final prog nobs (install prog (init_state init)) ops in
+  first st k = false ->
   (forall s x, In (s, x) (flat (parents st k)) -> dsrc prog (alive st) (store st) s = x) ->
-  count (fst (read_top prog st k)) k = count st k.
-Proof. exact no_spurious. Qed.
+  count (fst (read_top prog st j)) k = count st k.
+Proof. exact no_spurious_history. Qed.
 Print Assumptions C17_no_spurious_partial.
 
-(* ... conversely, whenever the function is run, it is its first run or one of the remembered
-   values differs now *)
-Theorem C17_recompute_justified_partial : forall prog st k,
-  Inv prog st -> (k < length prog)%nat ->
-  count (fst (callf prog (length prog) st k)) k <> count st k ->
-  first st k = true \/ exists s x, In (s, x) (flat (parents st k)) /\ Dsrc prog st s <> x.
-Proof. exact recompute_justified. Qed.
-Print Assumptions C17_recompute_justified_partial.
+(* ... and assignments never run a function at all (evaluation is lazy), in any state *)
+Theorem C17_assignment_runs_nothing : forall prog b st o nm v st',
+  set_obs prog b st o nm v = Some st' -> count st' = count st.
+Proof. exact set_obs_count. Qed.
+Print Assumptions C17_assignment_runs_nothing.
+
+(* Chains: at the end of any history (without owner collection) a read of computed k equals the direct
+   recursive evaluation of its term over the current store, where every `Comp k'` met on the way is again
+   the direct recursive evaluation of the term of k' - through chains of any length. *)
+Theorem C17_chain_read_is_recursive_evaluation : forall (c : case) (pre : list op) (k : nat),
+  no_kill pre = true -> (k < length (c_comps c))%nat ->
+  let prog := c_comps c in
+  let st := final prog (map (@length Z) (c_init c)) (start c) pre in
+  let ev := den prog (alive st) (store st) in
+  snd (read_top prog st k) = pev prog ev (alive st) (store st) k (d_expr (cdef_at prog k)) /\
+  (forall k', ev k' = pev prog ev (alive st) (store st) k' (d_expr (cdef_at prog k'))).
+Proof. exact chain_read. Qed.
+Print Assumptions C17_chain_read_is_recursive_evaluation.
 
 (* a function that reads an observable and later assigns it is rejected - whatever it does before,
    in between (other reads, assignments to other observables, reads of Computables) and after, in
@@ -86,6 +147,30 @@ Theorem C17_cycle_rejected : forall prog o nm v pre mid post st, alive st o = tr
   snd (run_acts prog (pre ++ ARead o nm :: mid ++ AWrite o nm v :: post) st) = false.
 Proof. exact cycle_rejected. Qed.
 Print Assumptions C17_cycle_rejected.
+
+(* What exactly the code rejects (open issue "transitive cycles" made precise):
+   an assignment from inside a function is refused iff the observable is in PROCESSING_SIGNALS then; *)
+Theorem C17_write_rejected_iff_in_read_set : forall prog st o nm v, alive st o = true ->
+  (snd (run_acts prog [AWrite o nm v] st) = false <-> ps_mem o nm (ps st) = true).
+Proof. exact write_rejected_iff. Qed.
+Print Assumptions C17_write_rejected_iff_in_read_set.
+
+(* reading a Computable and then assigning x is rejected iff evaluating that Computable put x into the
+   read set, i.e. its function was actually re-run and read x (or x was there before); *)
+Theorem C17_read_computable_then_write : forall prog st k o nm v,
+  (k < length prog)%nat -> alive st (cowner prog k) = true -> alive st o = true ->
+  snd (run_acts prog [AReadC k; AWrite o nm v] st) = negb (ps_mem o nm (ps (fst (read_top prog st k)))).
+Proof. exact read_comp_then_write. Qed.
+Print Assumptions C17_read_computable_then_write.
+
+(* so a transitive cycle through a Computable served from cache is ACCEPTED by the code, whatever that
+   Computable depends on (the cycle clause of the statement holds for direct reads only) *)
+Theorem C17_cycle_through_cache_accepted : forall prog st k o nm v,
+  (k < length prog)%nat -> alive st (cowner prog k) = true -> alive st o = true ->
+  dirty st k = false -> first st k = false -> ps_mem o nm (ps st) = false ->
+  snd (run_acts prog [AReadC k; AWrite o nm v] st) = true.
+Proof. exact cycle_through_cache_accepted. Qed.
+Print Assumptions C17_cycle_through_cache_accepted.
 
 (* ---------------------------------------------------------------- non-vacuity *)
 Definition ex_chain : case :=
@@ -127,3 +212,62 @@ Example C17_example_cycle :
   snd (run_acts (c_comps ex_chain) [ARead 0 0; AWrite 0 1 7; AWrite 0 0 6] st) = false /\
   snd (run_acts (c_comps ex_chain) [ARead 0 0; AWrite 0 1 7] st) = true.
 Proof. vm_compute. split; reflexivity. Qed.
+
+(* parents are the last reads: after the branch flips away from c0, computed 1 remembers x only *)
+Example C17_example_parents_are_last_reads :
+  let pre := [Read 1; Assign 0 0 0; Read 1; Assign 0 1 20] in
+  let st := final (c_comps ex_chain) [2%nat] (start ex_chain) pre in
+  first st 1%nat = false /\ dirty st 1%nat = false /\
+  flat (parents st 1%nat) = [(SObs 0 0, 0)] /\
+  reads_of (c_comps ex_chain) (alive st) (store st) 1 = [(SObs 0 0, 0)] /\
+  flat (parents st 2%nat) = [(SObs 0 0, 1); (SComp 0, 11)] /\ dirty st 2%nat = true.
+Proof. vm_compute. repeat split. Qed.
+
+(* whole-history form: reading computed 2 (which reads c0) after `y := 10` restored y does not re-run c0,
+   after `y := 30` it re-runs c0 exactly once *)
+Example C17_example_runs_only_when_changed :
+  let prog := c_comps ex_chain in
+  let st1 := final prog [2%nat] (start ex_chain) [Assign 0 1 20; Assign 0 1 10] in
+  let st2 := final prog [2%nat] (start ex_chain) [Assign 0 1 20; Assign 0 1 30] in
+  dirty st1 0%nat = true /\ count (fst (read_top prog st1 2)) 0%nat = count st1 0%nat /\
+  count (fst (read_top prog st2 2)) 0%nat = count st2 0%nat + 1.
+Proof. vm_compute. repeat split. Qed.
+
+(* a chain of six Computables, c_i = c_(i-1) + x *)
+Definition ex_long : case :=
+  {| c_init := [[1]];
+     c_comps := [mkdef 0 (Obs 0 0); mkdef 0 (Add (Comp 0) (Obs 0 0)); mkdef 0 (Add (Comp 1) (Obs 0 0));
+                 mkdef 0 (Add (Comp 2) (Obs 0 0)); mkdef 0 (Add (Comp 3) (Obs 0 0)); mkdef 0 (Add (Comp 4) (Obs 0 0))];
+     c_ops := [] |}.
+Example C17_example_chain :
+  let st := final (c_comps ex_long) [1%nat] (start ex_long) [Assign 0 0 7; Read 2; Assign 0 0 3] in
+  snd (read_top (c_comps ex_long) st 5) = 18 /\ den (c_comps ex_long) (alive st) (store st) 5 = 18 /\
+  map (count (fst (read_top (c_comps ex_long) st 5))) (seq 0 6) = [3; 3; 3; 2; 2; 2].
+Proof. vm_compute. repeat split. Qed.
+
+(* transitive cycle: c0 depends on x; a function reads c0 from cache and assigns x: accepted; when c0 is
+   dirty its function is re-run, x enters the read set, and the same function is rejected *)
+Example C17_example_transitive_cycle :
+  let prog := c_comps ex_long in
+  let st := final prog [1%nat] (start ex_long) [Assign 0 0 7; Read 0; Assign 0 0 7; Read 0] in
+  let st' := final prog [1%nat] (start ex_long) [Assign 0 0 7; Read 0; Assign 0 0 8] in
+  map fst (flat (parents st 0%nat)) = [SObs 0 0] /\ dirty st 0%nat = false /\ ps_mem 0 0 (ps st) = false /\
+  snd (run_acts prog [AReadC 0; AWrite 0 0 9] st) = true /\
+  dirty st' 0%nat = true /\ snd (run_acts prog [AReadC 0; AWrite 0 0 9] st') = false.
+Proof. vm_compute. repeat split. Qed.
+
+(* owner collection: c0 = A.x + 1 never read owner B (1), c1 = B.x + c0 did, c2 = c0 + c0 did not: collecting B
+   leaves c0 and c2 exact (hypotheses of C17_never_stale_unless_read_dead_owner_partial hold), c1 is the
+   refuted case *)
+Definition ex_kill : case :=
+  {| c_init := [[1]; [7]];
+     c_comps := [mkdef 0 (Add (Obs 0 0) (Const 1)); mkdef 0 (Add (Obs 1 0) (Comp 0)); mkdef 0 (Add (Comp 0) (Comp 0))];
+     c_ops := [] |}.
+Example C17_example_kill :
+  let prog := c_comps ex_kill in
+  let st := final prog [1%nat; 1%nat] (start ex_kill) [Assign 0 0 4; Read 1; Read 2] in
+  let st' := final prog [1%nat; 1%nat] (start ex_kill) ([Assign 0 0 4; Read 1; Read 2] ++ [Kill 1]) in
+  dirty st 2%nat = false /\ indepf prog 3 st 1 2 = true /\ indepf prog 3 st 1 0 = true /\ indepf prog 3 st 1 1 = false /\
+  snd (read_top prog st' 2) = 10 /\ den prog (alive st') (store st') 2 = 10 /\
+  snd (read_top prog st' 1) = 12 /\ den prog (alive st') (store st') 1 = 5.
+Proof. vm_compute. repeat split. Qed.
